@@ -35,10 +35,17 @@ def worker(k):
         r = sh("git -C %s apply %s/patch.diff" % (rp, d))
         if r.returncode:
             r = sh("git -C %s apply --3way %s/patch.diff" % (rp, d))
-        res = {"repo_head": repo_head, "verif_head": verif_head, "applies": r.returncode == 0, "detected": False, "by": None, "line": None}
+            if r.returncode or sh("git -C %s diff --name-only --diff-filter=U" % rp).stdout.strip():
+                sh("git -C %s reset -q --hard; git -C %s clean -fdq" % (rp, rp))
+                r = subprocess.CompletedProcess("", 1)
+        which = "patch.diff"
+        if r.returncode and os.path.exists(os.path.join(d, "patch.rebased.diff")):
+            # the same change ported by hand to the code as rewritten by later repairs
+            r = sh("git -C %s apply %s/patch.rebased.diff" % (rp, d)); which = "patch.rebased.diff"
+        res = {"repo_head": repo_head, "verif_head": verif_head, "applies": r.returncode == 0, "patch": which, "detected": False, "by": None, "line": None}
         if r.returncode == 0:
             for c in checks:
-                o = sh("VERIF_REPO=%s timeout 1500 ./check %s quick 2>&1 | grep -v '^KNOWN-FINDING' | tail -4" % (rp, c), cwd=fw).stdout
+                o = sh("VERIF_REPO=%s timeout 1500 ./check %s quick 2>&1 | grep '^VIOLATION' | head -3" % (rp, c), cwd=fw).stdout
                 v = [l for l in o.splitlines() if l.startswith("VIOLATION")]
                 if v:
                     res.update(detected=True, by="./check %s quick" % c, line=v[0].replace(fw, "<verif>"))
